@@ -234,19 +234,34 @@ def run_case(cfg):
         p.s._recordLayer.padding_cb = pad_cb(cfg["pad"], rnd)
     W = {"c2s": 0, "s2c": 0}
     Rd = {"c2s": 0, "s2c": 0}
+    sent = {"c2s": bytearray(), "s2c": bytearray()}     # what the application passed to write(), by value
+
+    def expect(d, off, n):
+        return bytes(sent[d][off:off + n])
+    crnd = random.Random(repr(("container", env.SEED, cfg["case"])))
     for op in ops_for(cfg, rnd):
         if op[0] == "W":
             _, d, n = op
             who = "c" if d == "c2s" else "s"
-            data = stream(d, W[d], n)
-            tr.emit("W", d=d, n=n)
-            o = p.write(who, data)
-            if not o.ok:
-                info["problems"].append("write raised %s" % o.describe())
-                tr.emit("WX", d=d, exc=o.describe())
+            value = stream(d, W[d], n)
+            # the application's buffer: immutable bytes, a bytearray, a memoryview, or one bytearray object that the
+            # application passes to two consecutive writes (the stream written is the value passed, twice)
+            kind = crnd.randrange(5)
+            data = value if kind == 0 else (memoryview(value) if kind == 1 else bytearray(value))
+            failed = False
+            for _rep in range(2 if (kind == 4 and 0 < n <= 40000) else 1):
+                tr.emit("W", d=d, n=n)
+                o = p.write(who, data)
+                if not o.ok:
+                    info["problems"].append("write raised %s" % o.describe())
+                    tr.emit("WX", d=d, exc=o.describe())
+                    failed = True
+                    break
+                W[d] += n
+                sent[d] += value
+                tr.emit("WE", d=d)
+            if failed:
                 break
-            W[d] += n
-            tr.emit("WE", d=d)
         elif op[0] == "KU":
             from tlslite.constants import KeyUpdateMessageType
             _, d, req = op
@@ -276,7 +291,7 @@ def run_case(cfg):
                     break
                 got = bytes(o.value)
                 if got:
-                    tr.emit("RD", d=dd, max=-1, min=0, len=len(got), match=got == stream(dd, Rd[dd], len(got)), closed=bool(conn.closed))
+                    tr.emit("RD", d=dd, max=-1, min=0, len=len(got), match=got == expect(dd, Rd[dd], len(got)), closed=bool(conn.closed))
                     Rd[dd] += len(got)
             if bad:
                 break
@@ -299,7 +314,7 @@ def run_case(cfg):
                 tr.emit("RX", d=d, exc=o.describe())
                 break
             got = bytes(o.value)
-            match = got == stream(d, Rd[d], len(got))
+            match = got == expect(d, Rd[d], len(got))
             tr.emit("RD", d=d, max=mx, min=mn, len=len(got), match=match, closed=bool(conn.closed))
             Rd[d] += len(got)
     # ---- tail: one side writes k more bytes and closes; the other asked for more than k and must get exactly
@@ -316,6 +331,7 @@ def run_case(cfg):
         o = p.write(who, data)
         if o.ok:
             W[d] += k
+            sent[d] += data
             tr.emit("WE", d=d)
             p.close(who)
             conn = p.s if peer == "s" else p.c
@@ -325,7 +341,7 @@ def run_case(cfg):
                 tr.emit("RX", d=d, exc=o.describe())
             else:
                 got = bytes(o.value)
-                tr.emit("RD", d=d, max=-1, min=k + 50, len=len(got), match=got == stream(d, Rd[d], len(got)), closed=bool(conn.closed))
+                tr.emit("RD", d=d, max=-1, min=k + 50, len=len(got), match=got == expect(d, Rd[d], len(got)), closed=bool(conn.closed))
                 Rd[d] += len(got)
         else:
             info["problems"].append("tail write raised %s" % o.describe())
